@@ -160,7 +160,7 @@ def _gc(keep):
     base = os.path.join(WORK, "facts")
     dirs = [d for d in os.listdir(base) if os.path.isdir(os.path.join(base, d)) and d != keep]
     dirs.sort(key=lambda d: os.path.getmtime(os.path.join(base, d)), reverse=True)
-    for d in dirs[3:]:
+    for d in dirs[8:]:
         shutil.rmtree(os.path.join(base, d), ignore_errors=True)
 
 
